@@ -120,6 +120,10 @@ func viewOf(b []byte, s string, p int) bool {
 // disjointFromTail: the elements of v do not overlap the spare capacity b[len(b):cap(b)].
 func disjointFromTail(v, b any) bool { return true }
 
+// identical: a and b are the same value (for strings, a sufficient condition for a == b that
+// keeps uninterpreted spec functions congruent).
+func identical[T comparable](a, b T) bool { return a == b }
+
 func bytesEq[A, B ~[]byte | ~string](a A, b B) bool { return string(a) == string(b) }
 
 // loopIndex names the hidden index of the innermost enclosing range loop in loop invariants.
